@@ -120,6 +120,34 @@ CHECKS["C05"] = dict(
     ref="5 (C05), 7 (K3), Appendix A",
 )
 
+CHECKS["C06"] = dict(
+    category="exploration",
+    technique="panic hook + process-death journal over a structure-aware mutated corpus, full accessor sweep, two build profiles",
+    text=("About 50 valid seed files of every layout and codec are mutated by boundary-value substitution into every field of the reference encoder's "
+          "field map (complete in thorough), pairwise substitution, byte-level havoc and 14 amplifier families; every input is opened (also as a fragment "
+          "against opened init segments) and every public read-side accessor is called under a panic hook, in the overflow-checked and the release "
+          "profile. Worker deaths (allocation abort, stack overflow, CPU watchdog) are attributed to the journalled open case."),
+    note="Inputs are handed over with their true length. A per-case CPU watchdog (RLIMIT_CPU re-armed per case) turns a hang into an attributed death.",
+    ref="5 (C06), Appendix C",
+)
+CHECKS["C07"] = dict(
+    category="exploration",
+    technique="instrumented stream with per-call op/byte budgets, thread CPU clock (min of 3), doubling test over amplifier families at n,2n,4n,8n",
+    text=("Liveness is restated as bounded progress: per call at most 4000+16n stream operations, 1 MiB+16n bytes and 50 ms+2us*n CPU; the stream "
+          "returns an error when a budget is exhausted so that a non-terminating parse ends with evidence. A doubling test over 14 amplifier families "
+          "detects super-linear growth that stays below the absolute budgets. Observed maxima (about 1 op and 1 byte per input byte) are reported."),
+    note="Budget constants are >= 15x the worst ratio observed on the corpus after the repairs; CPU verdicts need the minimum of three runs to exceed the limit.",
+    ref="5 (C07), 1",
+)
+CHECKS["C08"] = dict(
+    category="exploration",
+    technique="counting global allocator (peak live bytes and largest single request per call) over the hostile corpus; refused >1 GiB requests attributed through the journal",
+    text=("Every library call on every hostile input is bracketed by a counting allocator: peak <= 64 KiB + 64n and largest request <= 64 KiB + 16n. "
+          "Requests above 1 GiB are recorded and refused so that the resulting abort is attributed to its input instead of exhausting the machine."),
+    note="Release profile. The counting allocator is the harness's global allocator (feature track-alloc).",
+    ref="5 (C08)",
+)
+
 PENDING_REASON = "monitor not yet registered in this commit (implementation in progress, see DESIGN.md section 11); not claimed until its check is silent on the unchanged tree"
 
 def mk():
